@@ -144,6 +144,10 @@ func ParseEnvelopedPrivateKey(priv *PrivateKey, enveloped []byte) (*PrivateKey, 
 	}
 	mode := cipher.NewECBDecrypter(block)
 	bytes := encryptedPrivateKey.RightAlign()
+	if len(bytes)%mode.BlockSize() != 0 {
+		// CryptBlocks panics on partial blocks; the length comes from the (untrusted) envelope
+		return nil, errors.New("sm2: invalid encrypted private key length in enveloped data")
+	}
 	plaintext := make([]byte, len(bytes))
 	mode.CryptBlocks(plaintext, bytes)
 	// Do we need to check length in order to be compatible with some implementations with padding?
